@@ -480,6 +480,15 @@ class OneRow:
     def transpose(self, copy=False):
         return self.chunk
 
+    def __getitem__(self, cols):
+        # a Series: a label gives the scalar, a list of labels the sub-series
+        a = self.chunk[cols]
+        return a[0] if isinstance(cols, str) else a
+
+    @property
+    def name(self):
+        return self.chunk.index[0]
+
 
 class Rows:
     """a block of trajectory rows with their stamps (DataFrame stand-in)"""
